@@ -144,13 +144,13 @@ static void write_log(int argc, char **argv, const char *cmd, int rc) {
  * pos = k (1-based) | all | fromK ; the per-kind invocation counter lives in
  * the file $VERIF_FAULT_STATE.<kind> */
 static const char *fault_mode(const char *cmd) {
-    static char mode[64];
+    static char mode[400];
     const char *plan = getenv("VERIF_FAULT"), *state = getenv("VERIF_FAULT_STATE");
     char kind[32], pos[32], path[1024];
     int count = 0, fd;
     FILE *f;
     if (plan == NULL || *plan == 0) return NULL;
-    if (sscanf(plan, "%31[^:]:%31[^:]:%63s", kind, pos, mode) != 3) return NULL;
+    if (sscanf(plan, "%31[^:]:%31[^:]:%399s", kind, pos, mode) != 3) return NULL;
     if (strcmp(kind, "any") && strcmp(kind, cmd + 2)) return NULL;
     if (state && *state) {
         snprintf(path, sizeof path, "%s.%s", state, kind);
@@ -543,6 +543,19 @@ int main(int argc, char **argv) {
         }
         if (!strcmp(fm, "segv_before")) { write_log(argc, argv, cmd, -SIGSEGV); raise(SIGSEGV); _exit(139); }
         if (!strcmp(fm, "kill_before")) { write_log(argc, argv, cmd, -SIGKILL); raise(SIGKILL); _exit(137); }
+        if (!strncmp(fm, "hex", 3) && strchr(fm, '_') != NULL) {
+            /* hex<rc>_<hex bytes>: write exactly these bytes to stderr and leave with status <rc>, doing nothing else */
+            int rcx = atoi(fm + 3);
+            const char *h = strchr(fm, '_') + 1;
+            while (h[0] && h[1]) {
+                unsigned int byte = 0;
+                if (sscanf(h, "%2x", &byte) != 1) break;
+                fputc((int)byte, stderr);
+                h += 2;
+            }
+            fflush(stderr);
+            write_log(argc, argv, cmd, rcx); return rcx;
+        }
         if (!strncmp(fm, "text_", 5)) {
             const char *t = "";
             if (!strcmp(fm, "text_not_ok")) t = "NOT OK\n";
